@@ -62,6 +62,15 @@ class AbstractOnlineResetVisitor(AbstractAstVisitor):
 class AbstractOnlineUpdateVisitor(AbstractAstVisitor):
     def __init__(self):
         self.results = dict()
+        self.updated = dict()
+
+    def visitAst(self, ast, *args, **kwargs):
+        # Online operations are stored by the printed name of their node: a
+        # sub-formula that occurs several times (or a sub-specification, which
+        # is both an assertion of its own and part of its users) shares one
+        # stateful operation, which must be stepped exactly once per update.
+        self.updated = dict()
+        return super(AbstractOnlineUpdateVisitor, self).visitAst(ast, *args, **kwargs)
 
     def visitSpec(self, node, online_operator_dict, var_object_dict):
         sample_return = self.visit(node, online_operator_dict, var_object_dict)
@@ -70,17 +79,27 @@ class AbstractOnlineUpdateVisitor(AbstractAstVisitor):
         return sample_return
 
     def visitBinary(self, node, online_operator_dict, var_object_dict):
+        if node.name in self.updated:
+            sample_return = self.updated[node.name]
+            self.results[node] = sample_return
+            return sample_return
         sample_left  = self.visit(node.children[0], online_operator_dict, var_object_dict)
         sample_right = self.visit(node.children[1], online_operator_dict, var_object_dict)
         operator = online_operator_dict[node.name]
         sample_return = operator.update(sample_left, sample_right)
+        self.updated[node.name] = sample_return
         self.results[node] = sample_return
         return sample_return
 
     def visitUnary(self, node, online_operator_dict, var_object_dict):
+        if node.name in self.updated:
+            sample_return = self.updated[node.name]
+            self.results[node] = sample_return
+            return sample_return
         sample = self.visit(node.children[0], online_operator_dict, var_object_dict)
         op = online_operator_dict[node.name]
         sample_return = op.update(sample)
+        self.updated[node.name] = sample_return
         self.results[node] = sample_return
         return sample_return
 
